@@ -70,7 +70,7 @@ def points_for(rng: random.Random, e, k: int, extra: float = 0.0) -> list[dict]:
     return pts
 
 
-EXTREME = [1e-20, -1e-18, 3e-17, 1e-9, -1e-9, 1e9, 1e20, -1e20, 1e-200, 5e-17, 1e-15, 40.0, -40.0, 700.0]
+EXTREME = [1e-20, -1e-18, 3e-17, 1e-9, -1e-9, 1e9, 1e20, -1e20, 1e-60, 5e-17, 1e-15, 40.0, -40.0, 700.0]
 
 
 def make_eval_case(origin: str, e, p: dict) -> dict:
